@@ -219,6 +219,10 @@ def in_python_domain(ctx, d, v, contract=None):
         return isinstance(v, uuid.UUID) or (isinstance(v, SOpaque) and v.kind == "uuid")
     if k == "errcode":
         return isinstance(v, SOpaque) and v.kind == "enum:ErrorCode" or type(v).__name__ == "ErrorCode"
+    if k == "nb":
+        if isinstance(v, SOpt):
+            v = v.val
+        return v is None or isinstance(v, (bytes, SBytes))
     if k == "td":
         return isinstance(v, SOpaque) and v.kind == "timedelta" or type(v).__name__ == "timedelta"
     if k == "ts":
